@@ -13,7 +13,7 @@ SOURCES = ['celt/x86/x86cpu.c', 'celt/x86/x86cpu.h', 'celt/x86/x86_celt_map.c', 
            'silk/float/x86/inner_product_FLP_avx2.c', 'silk/float/inner_product_FLP.c', 'silk/VQ_WMat_EC.c',
            'silk/NSQ.c', 'silk/NSQ_del_dec.c', 'silk/NSQ.h', 'silk/VAD.c', 'silk/main.h', 'silk/macros.h', 'silk/SigProc_FIX.h',
            'silk/lin2log.c', 'silk/control_codec.c', 'silk/float/wrappers_FLP.c', 'silk/quant_LTP_gains.c',
-           'silk/tables_LTP.c', 'silk/structs.h', 'silk/define.h', 'silk/Inlines.h', 'silk/ana_filt_bank_1.c']
+           'silk/tables_LTP.c', 'silk/structs.h', 'silk/define.h', 'silk/Inlines.h', 'silk/ana_filt_bank_1.c', 'celt/celt.h']
 REQUIRED_THEOREMS = ['OpusProps.C15.' + t for t in (
     'arch_range', 'arch_decision', 'dispatch_shape', 'dispatch_safe', 'float_kernels_fixed_below_avx2', 'vqWMatEC_sse_eq_c',
     'lanes_eq_seq_inner_prod', 'lanes_eq_seq_dual_inner_prod', 'lanes_eq_seq_xcorr_kernel',
@@ -21,6 +21,10 @@ REQUIRED_THEOREMS = ['OpusProps.C15.' + t for t in (
     'nsq_scale_states_sse_eq_c', 'vad_energy_sse_eq_c', 'sar_round_smulww_avx2_eq_c', 'nsq_del_dec_avx2_lane_ops_eq_c', 'pvq_search_relational',
     'pvq_presearch_contract_exact')]
 UNPROVED = [
+    'comb_filter_inplace_sse_eq_c: comb_filter_const_sse = comb_filter_const_c when called in place (y == x) for T >= '
+    'COMBFILTER_MINPERIOD = 15 (holds for T >= 6: the SSE code then only reads samples an in-place run has already finalised). '
+    'lanes_eq_seq_comb_filter is the out-of-place statement; the in-place case is covered by the exact-domain tie (combip, every '
+    'length at T = 15 and random T >= 15), not by a theorem.',
     'nsq_del_dec_simd_eq_c: silk_NSQ_del_dec_sse4_1 / silk_NSQ_del_dec_avx2 return the same silk_nsq_state, indices and pulses as '
     'silk_NSQ_del_dec_c for every state the encoder can hand over (about 2000 lines of intrinsics; only silk_sar_round_smulww has a '
     'Lean model; guarded by the differential search S4 on live and perturbed encoder states). For silk_NSQ_sse4_1 the part that '
@@ -58,9 +62,14 @@ NOT_COVERED = [
     'shapingLPCOrder=10 and predictLPCOrder=16) is not bit-exact with silk_NSQ_c — it feeds a stale local sDiff_shp_Q14 into the shaping '
     'filter — but silk_setup_complexity only selects orders 12,14,16,20,24, so no encoder input reaches it; the search probes it and '
     'prints the count as an observation',
-    'silk_NSQ_sse4_1, silk_NSQ_del_dec_sse4_1, silk_NSQ_del_dec_avx2, silk_VAD_GetSA_Q8_sse4_1, op_pvq_search_sse2 have no Lean model: '
-    'C-vs-SIMD comparison is differential only (live encoder states at every arch level plus structured perturbations) and is '
-    'counted as search, not proof',
+    'the per-sample loops of silk_NSQ_del_dec_sse4_1 / silk_NSQ_del_dec_avx2 and the parts of silk_VAD_GetSA_Q8_sse4_1 outside the '
+    'energy loop have no Lean model as whole programs (scale-states, the AVX2 lane helpers, silk_sar_round_smulww and the VAD energy '
+    'loop do): for them the C-vs-SIMD comparison is differential only (live encoder states at every arch level plus structured '
+    'perturbations) and is counted as search, not proof',
+    'op_pvq_search_c / op_pvq_search_sse2: the integer bookkeeping (pulse counts, yy, "too many pulses left" branch, sign restoration) '
+    'is modelled (OpusModel/KernelsPvq.lean) and tied: the pre-search counts and arg-max positions are recorded in the compiled '
+    'kernels and the model must reproduce iy and yy. The floating-point parts themselves (which counts / positions are chosen) are '
+    'oracles: the quality of the choices is searched against a calibrated margin only',
     'floating-point rounding-error bounds are not formalised; NaN/Inf/denormal inputs are not in the exact domain (the search uses '
     'finite floats of wide dynamic range with the a-priori reassociation bound)',
     'only the CPU levels the sandbox CPU supports are executed (here all five: the CPU has SSE4.1, AVX2 and FMA); fixed-point '
@@ -75,8 +84,7 @@ ASSUMPTIONS = ['x86-64 float build with OPUS_HAVE_RTCD, SSE/SSE2 presumed, SSE4.
                'the exact-domain differential presupposes IEEE binary32/binary64 arithmetic with round-to-nearest and no '
                'flush-to-zero surprises on integers below 2^24 / 2^53 (every operation is then exact)',
                'two\'s-complement wrap of 32-bit signed arithmetic in silk_MLA etc. as implemented by gcc (the model wraps explicitly)']
-TRUSTED = ['the integer bookkeeping of op_pvq_search_c/_sse2 (OpusModel/KernelsPvq.lean) is hand-transcribed and has no correspondence '
-           'run of its own beyond the S4 check of its conclusion on the compiled kernels',
+TRUSTED = [
            'the 0x49/0x9e/0x4e/0x99/0x55 shuffle immediates, the mask table of xcorr_kernel_avx and the loop bounds are hand-transcribed '
            'from the intrinsics into OpusModel/Kernels.lean; a transcription error shows up in the exact-domain differential',
            'Intel intrinsics semantics as modelled (one small Lean definition per intrinsic)']
@@ -84,7 +92,7 @@ TRUSTED = ['the integer bookkeeping of op_pvq_search_c/_sse2 (OpusModel/KernelsP
 CAL = json.load(open(os.path.join(common.VERIF, 'tools', 'c15_calibration.json')))
 
 
-EXTRA = {'c15_nsq': ('-msse4.1', '-mavx2', '-mfma'), 'c15_vadnrg': ('-msse4.1',)}
+EXTRA = {'c15_pvq': (), 'c15_nsq': ('-msse4.1', '-mavx2', '-mfma'), 'c15_vadnrg': ('-msse4.1',)}
 
 
 def _harness(ctx, name, variant, link_lib=True):
@@ -115,6 +123,10 @@ def _vad(ctx, variant):
     return _harness(ctx, 'c15_vadnrg', variant)
 
 
+def _pvq(ctx, variant):
+    return _harness(ctx, 'c15_pvq', variant)
+
+
 def _arch(ctx):
     return _harness(ctx, 'c15_arch', 'plain', link_lib=False)
 
@@ -125,7 +137,7 @@ def pre_build(ctx):
     for v in ('plain', 'san'):
         _k(ctx, v)
         _codec(ctx, v)
-    _nsq(ctx, 'san'); _nsq(ctx, 'plain'); _vad(ctx, 'san')
+    _nsq(ctx, 'san'); _nsq(ctx, 'plain'); _vad(ctx, 'san'); _pvq(ctx, 'san')
     _arch(ctx)
     return {}
 
@@ -145,6 +157,7 @@ def ties(ctx):
     out.append(common.run_tie('kernels-nsq-avx2-lanes', [_nsq(ctx, 'plain'), 'lanes', s, '3000' if q else '120000']))
     out.append(common.run_tie('kernels-nsq-helpers', [_nsq(ctx, 'plain'), 'helpers', s, '6000' if q else '200000']))
     out.append(common.run_tie('kernels-vad-energy', [_vad(ctx, 'san'), 'run', s, '250' if q else '8000']))
+    out.append(common.run_tie('kernels-pvq-bookkeeping', [_pvq(ctx, 'san'), 'run', s, '4000' if q else '150000']))
     out.append(common.run_tie('kernels-selectarch', [_arch(ctx), 'enum', s, '4000' if q else '300000']))
     return out
 
@@ -268,6 +281,25 @@ def classify(ctx, tie, mm):
                % ({'nsqscale': 'silk_nsq_scale_states', 'vadnrg': 'VAD sub-frame energy loop',
                    'sarround': 'silk_sar_round_smulww', 'lane': 'NSQ_del_dec_avx2.c lane helper ' + (toks[2] if len(toks) > 2 else '')}[op],
                   ', '.join(bad)))
+    elif op == 'pvq':
+        # the relational property evaluated on the kernel's own answer
+        try:
+            K = int(toks[4]); signs = _ints(toks[7])
+            m = re.match(r'iy=(\S+) yy=(\S+)', impl)
+            iy = _ints(m.group(1)); yy = float(m.group(2))
+        except (ValueError, IndexError, AttributeError):
+            return None
+        bad = []
+        if sum(abs(v) for v in iy) != K:
+            bad.append('sum|iy| = %d, not K = %d' % (sum(abs(v) for v in iy), K))
+        if any((v > 0 and s) or (v < 0 and not s) for v, s in zip(iy, signs)):
+            bad.append('a pulse has the opposite sign of its coefficient')
+        if yy != sum(v * v for v in iy):
+            bad.append('returned yy is not sum iy^2')
+        if not bad:
+            return None           # the kernel's answer satisfies the property: recording / model at fault
+        expected = 'K pulses, signs follow X, yy = sum iy^2 (model: %s)' % (expected or '')[:200]
+        why = 'op_pvq_search_%s: %s' % (toks[2], '; '.join(bad))
     elif op == 'selectarch':
         try:
             want = _arch_spec(toks)
